@@ -158,11 +158,11 @@ def gen_unit_program(rng, jetlist, depth, opts=None, segments=None):
     return pg.compact_prog(b.nodes)
 
 
-def typed_programs(rng, binary, workdir, count, depth_choices, opts=None, tag="gen"):
+def typed_programs(rng, binary, workdir, count, depth_choices, opts=None, tag="gen", jetlist=None):
     """generate `count` structures, ask the implementation for the inferred arrows (program = 1 -> 1),
     fill the witnesses with values of the inferred types.  Returns list of (prog, arrows, structure without
     witness values) and statistics."""
-    jl = jets(binary, workdir)
+    jl = jets(binary, workdir) if jetlist is None else jetlist
     structs = []
     for _ in range(count):
         o = dict(opts or {})
@@ -335,6 +335,42 @@ def table_type_size(rows):
     for r in rows:
         if r[4] is not None:
             tot += ty_tree_size(r[4][0]) + ty_tree_size(r[4][1])
+    return tot
+
+
+def _nums_ty_size(nums, pos):
+    """(tree size, next position) of a type in the numeric prefix notation, without building it"""
+    size = 0
+    need = 1
+    while need:
+        k = nums[pos]
+        pos += 1
+        need -= 1
+        if k == 0:
+            size += 1
+        elif k == 3:
+            size += 2 ** (nums[pos] + 2) - 1
+            pos += 1
+        else:
+            size += 1
+            need += 2
+    return size, pos
+
+
+def table_size_from_nums(tnums):
+    """total tree size of all arrows of a dumped node table (None when the table was not printed)"""
+    if not tnums or tnums[0] != 0:
+        return None
+    n = tnums[1]
+    pos = 2
+    tot = 0
+    for _ in range(n):
+        marker = tnums[pos + 4]
+        pos += 5
+        if marker != 5:
+            a, pos = _nums_ty_size(tnums, pos)
+            b, pos = _nums_ty_size(tnums, pos)
+            tot += a + b
     return tot
 
 
@@ -605,4 +641,565 @@ def probe_cases(rng, env):
         pdl = "jet.e.current_annex_hash,unit,pair.0.1,unit,hid.%s,case.3.4,comp.2.5" % h
     present = annex in (1, 2)
     out.append((pdl, 0 if present == want_right else 1, "current_annex_hash"))
+    return out
+
+
+# ================================================================== phase 2 additions
+# ------------------------------------------------------------------ systematic witness-width family
+# SHA-256 padding boundaries of merkle/mod.rs compact_value (mod 512: the delimiter bit and the 64-bit length
+# fit in the last block up to 447 bits, not from 448 on) and other width classes
+WIDTH_CLASSES = sorted(set(
+    [0, 1, 7, 8, 9, 63, 64, 65, 255, 256, 257, 511, 512, 513, 1023, 1024] +
+    list(range(440, 449)) + list(range(504, 514)) +
+    [512 + w for w in range(440, 449)] + [1016, 1017, 1025]))
+
+
+def words_type(w):
+    """product of word types (big end first) of total width w; None for w = 0 (unit)"""
+    parts = [pg.word(k) for k in range(w.bit_length() - 1, -1, -1) if (w >> k) & 1]
+    if not parts:
+        return U
+    t = parts[-1]
+    for p in reversed(parts[:-1]):
+        t = P(p, t)
+    return t
+
+
+def _const_nodes(nodes, t, rng):
+    """append nodes of a constant term 1 -> t built from words, pairs, unit and injl (pins the type t:
+    t must be made of word types, products, unit and sums `a + 1`); returns its index"""
+    n = pg.as_word(t)
+    if n is not None:
+        nodes.append(("word", n, rng.bits(2 ** n)))
+    elif t == U:
+        nodes.append(("unit",))
+    elif t[0] == "p":
+        a = _const_nodes(nodes, t[1], rng)
+        b = _const_nodes(nodes, t[2], rng)
+        nodes.append(("pair", a, b))
+    else:
+        assert t[0] == "s" and t[2] == U
+        a = _const_nodes(nodes, t[1], rng)
+        nodes.append(("injl", a))
+    return len(nodes) - 1
+
+
+def pinned_witness_program(rng, t, value):
+    """1 -> 1 program with one witness node whose target type is forced to be exactly t (by unification with a
+    constant of type t through the two branches of a case), holding `value`:
+        comp (comp (pair (injl WIT) unit) (case (take iden) (comp unit CONST_t))) unit"""
+    nodes = [("wit", ("c", pg.compact_bits(value)))]
+    nodes.append(("injl", 0))
+    nodes.append(("unit",))
+    nodes.append(("pair", 1, 2))
+    nodes.append(("iden",))
+    nodes.append(("take", 4))
+    tk = 5
+    nodes.append(("unit",))
+    u2 = 6
+    k = _const_nodes(nodes, t, rng)
+    nodes.append(("comp", u2, k))
+    ck = len(nodes) - 1
+    nodes.append(("case", tk, ck))
+    nodes.append(("comp", 3, len(nodes) - 1))
+    body = len(nodes) - 1
+    nodes.append(("unit",))
+    nodes.append(("comp", body, len(nodes) - 1))
+    return nodes
+
+
+def width_family(rng, per_width=2):
+    """[(pdl program, compact witness length, description)]: for every width class a witness of a product-of-words
+    type of exactly that width (random, all-zero and all-one values) and, for widths >= 1, a witness of the sum type
+    (words of width-1) + 1 holding a left value (compact length = width) """
+    out = []
+    for w in WIDTH_CLASSES:
+        t = words_type(w)
+        vals = []
+        for k in range(per_width):
+            bits = rng.bits(w) if k else ([0] * w if rng.below(2) else [1] * w)
+            vals.append(pg.of_compact(t, bits)[0] if w else ("U",))
+        for v in vals:
+            out.append((pinned_witness_program(rng, t, v), w, "words:%d" % w))
+        if w >= 1:
+            ts = S(words_type(w - 1), U)
+            bits = [0] + rng.bits(w - 1)
+            out.append((pinned_witness_program(rng, ts, pg.of_compact(ts, bits)[0]), w, "sum-left:%d" % w))
+    # two witnesses in one program, the second one straddling a boundary at an unaligned stream offset
+    for w in (441, 447, 448, 505):
+        t = P(words_type(3), words_type(w))
+        v = pg.of_compact(t, rng.bits(3 + w))[0]
+        out.append((pinned_witness_program(rng, t, v), 3 + w, "words:3+%d" % w))
+    return out
+
+
+def witness_lengths(rows):
+    """compact bit lengths of the witness values of a decoded node table (harness `dump_table` rows)"""
+    return [r[3] for r in rows if r[0] == 14]
+
+
+# ------------------------------------------------------------------ grammar-based mutation layer
+def codec_jt(binary, workdir):
+    """the Elements jet code table in the form the python assembler of tools/props/codec_common.py wants"""
+    from props import codec_common as kc
+    codes = jet_codes(binary, workdir)
+    names = [j[1] for j in all_jets(binary, workdir)]
+    return kc.JetTable([codes[n] for n in names])
+
+
+GRAMMAR_CLASSES = {
+    # name: what the mutation does / which decoder's rules it stays within
+    "leaf-to-fail": "a leaf replaced by a fail node: decodable (and typable) by Rust's rules, FAIL_CODE for C",
+    "subtree-to-fail": "an inner node replaced by a fail node (its children become unreachable unless shared)",
+    "disc-to-disc1": "disconnect with its right child dropped (code 01011): a commitment-time node for Rust's decoder, RESERVED_CODE for C",
+    "case-child-to-hidden": "a child of a case replaced by a hidden node carrying the child's CMR (pruned form; valid for both)",
+    "hidden-misplaced": "a child of a non-case node replaced by a hidden node",
+    "hidden-both": "both children of a case hidden",
+    "hidden-duplicate": "the same hidden root twice",
+    "length-prefix": "length prefix changed (len+-1, 0 is not encodable, DAG_LEN_MAX+1, 2^31, 2^32-1, 2^32, 2^64-1)",
+    "backref-out-of-range": "a relative index larger than the node's position",
+    "backref-retarget": "a relative index changed within range (typing / canonical order / sharing may break)",
+    "jet-code": "a jet code replaced by another jet of the same arrow, by a jet of another arrow, or by an unassigned code point",
+    "word-size": "a word node re-encoded with depth 32 / 33 / 34 (2^31.. bits announced, none supplied) or one step larger/smaller",
+    "swap-independent": "two adjacent independent nodes exchanged (canonical order)",
+    "duplicate-node": "a node duplicated and one reference retargeted (sharing not maximal)",
+    "padding-bits": "non-zero padding bits / an extra zero byte at the end of the program stream",
+    "witness-stream": "witness stream one bit short / one byte long / non-zero padding",
+    "truncate-at-node": "program cut at a node boundary (remaining nodes missing)",
+}
+
+
+def _dn_children(d):
+    k = d[0]
+    if k in ("injl", "injr", "take", "drop", "disc1"):
+        return [d[1]]
+    if k in ("comp", "case", "pair", "disc"):
+        return [d[1], d[2]]
+    return []
+
+
+def _dn_map(d, f):
+    k = d[0]
+    if k in ("injl", "injr", "take", "drop", "disc1"):
+        return (k, f(d[1]))
+    if k in ("comp", "case", "pair", "disc"):
+        a = f(d[1])
+        return (k, a, f(d[2]))
+    return d
+
+
+def grammar_mutations(rng, dnodes, wbytes, jt, node_cmrs=None, jets_by_arrow=None, count=4):
+    """structure-aware mutations of a decoded node list (python dnodes of codec_common), re-assembled with the
+    python bit assembler.  Returns [(class, program bytes, witness bytes)]"""
+    from props import codec_common as kc
+    out = []
+    n = len(dnodes)
+    wbytes = list(wbytes)
+
+    def canon(nodes):
+        """post order from the root (left child first), every position once: drops unreachable entries and puts the
+        others where the canonical order wants them"""
+        ren = {}
+        order = []
+        stack = [(len(nodes) - 1, 0)]
+        while stack:
+            x, st = stack.pop()
+            if x in ren:
+                continue
+            ch = _dn_children(nodes[x])
+            if st < len(ch):
+                stack.append((x, st + 1))
+                if ch[st] not in ren:
+                    stack.append((ch[st], 0))
+            else:
+                ren[x] = len(order)
+                order.append(x)
+        return [_dn_map(nodes[x], lambda c: ren[c]) for x in order]
+
+    def emit(cls, nodes, length=None, rels=None, tail=None, wit=None, recanon=False):
+        if recanon and rng.below(5) != 0 and all(0 <= c < i_ for i_, d_ in enumerate(nodes) for c in _dn_children(d_)):
+            nodes = canon(nodes)
+        bits = kc.enc_nat(len(nodes) if length is None else length)
+        for i, d in enumerate(nodes):
+            bits += kc.enc_dnode(i, d, jt, rel=(rels or {}).get(i))
+        if tail:
+            bits += tail
+        out.append((cls, kc.pack(bits), wbytes if wit is None else wit))
+
+    for _ in range(count):
+        k = rng.below(17)
+        i = rng.below(n)
+        d = dnodes[i]
+        fe = tuple(rng.bytes(64))
+        if k == 0:
+            leaves = [j for j in range(n) if not _dn_children(dnodes[j]) and dnodes[j][0] != "hid"]
+            if leaves:
+                j = rng.choice(leaves)
+                emit("leaf-to-fail", dnodes[:j] + [("fail", fe)] + dnodes[j + 1:])
+        elif k == 1:
+            inner = [j for j in range(n - 1) if _dn_children(dnodes[j])]
+            if inner:
+                j = rng.choice(inner)
+                emit("subtree-to-fail", dnodes[:j] + [("fail", fe)] + dnodes[j + 1:], recanon=True)
+        elif k == 2:
+            ds = [j for j in range(n) if dnodes[j][0] == "disc"]
+            if ds:
+                j = rng.choice(ds)
+                emit("disc-to-disc1", dnodes[:j] + [("disc1", dnodes[j][1])] + dnodes[j + 1:])
+        elif k == 3:
+            cs = [j for j in range(n) if dnodes[j][0] == "case" and dnodes[dnodes[j][1]][0] != "hid" and dnodes[dnodes[j][2]][0] != "hid"]
+            if cs and node_cmrs:
+                j = rng.choice(cs)
+                side = 1 + rng.below(2)
+                c = dnodes[j][side]
+                # the hidden node is inserted right before the case node; the old child stays (possibly unreachable)
+                q = dnodes[:j] + [("hid", tuple(node_cmrs[c]))] + [_dn_map(x, lambda y: y + 1 if y >= j else y) for x in dnodes[j:]]
+                cj = list(q[j + 1])
+                cj[side] = j
+                q[j + 1] = tuple(cj)
+                emit("case-child-to-hidden", q, recanon=True)
+        elif k == 4:
+            ps = [j for j in range(n) if _dn_children(dnodes[j]) and dnodes[j][0] != "case"]
+            if ps:
+                j = rng.choice(ps)
+                q = dnodes[:j] + [("hid", tuple(rng.bytes(32)))] + [_dn_map(x, lambda y: y + 1 if y >= j else y) for x in dnodes[j:]]
+                cj = list(q[j + 1])
+                cj[1] = j
+                q[j + 1] = tuple(cj)
+                emit("hidden-misplaced", q, recanon=True)
+        elif k == 5:
+            cs = [j for j in range(n) if dnodes[j][0] == "case"]
+            if cs:
+                j = rng.choice(cs)
+                q = dnodes[:j] + [("hid", tuple(rng.bytes(32))), ("hid", tuple(rng.bytes(32)))] + \
+                    [_dn_map(x, lambda y: y + 2 if y >= j else y) for x in dnodes[j:]]
+                q[j + 2] = ("case", j, j + 1)
+                emit("hidden-both", q, recanon=True)
+        elif k == 6:
+            hs = [j for j in range(n) if dnodes[j][0] == "hid"]
+            cs = [j for j in range(n) if dnodes[j][0] == "case" and dnodes[dnodes[j][1]][0] != "hid" and dnodes[dnodes[j][2]][0] != "hid"]
+            if hs and cs:
+                h = dnodes[rng.choice(hs)]
+                j = rng.choice(cs)
+                q = dnodes[:j] + [h] + [_dn_map(x, lambda y: y + 1 if y >= j else y) for x in dnodes[j:]]
+                cj = list(q[j + 1])
+                cj[1 + rng.below(2)] = j
+                q[j + 1] = tuple(cj)
+                emit("hidden-duplicate", q, recanon=True)
+        elif k == 7:
+            ln = rng.choice([n + 1, max(1, n - 1), n + 2, 8000001, 2 ** 31, 2 ** 32 - 1, 2 ** 32, 2 ** 64 - 1])
+            emit("length-prefix", dnodes, length=ln)
+        elif k == 8:
+            ps = [j for j in range(n) if _dn_children(dnodes[j])]
+            if ps:
+                j = rng.choice(ps)
+                ch = _dn_children(dnodes[j])
+                rel = [j - c for c in ch]
+                rel[rng.below(len(rel))] = j + rng.choice([1, 1, 2, 2 ** 16, 2 ** 31, 2 ** 32])
+                emit("backref-out-of-range", dnodes, rels={j: tuple(rel)})
+        elif k == 9:
+            ps = [j for j in range(1, n) if _dn_children(dnodes[j])]
+            if ps:
+                j = rng.choice(ps)
+                ch = _dn_children(dnodes[j])
+                rel = [j - c for c in ch]
+                rel[rng.below(len(rel))] = rng.range(1, j)
+                if rng.below(2):
+                    emit("backref-retarget", dnodes, rels={j: tuple(rel)})
+                else:
+                    q = list(dnodes)
+                    q[j] = (dnodes[j][0],) + tuple(j - x for x in rel)
+                    emit("backref-retarget", q, recanon=True)
+        elif k == 10:
+            js = [j for j in range(n) if dnodes[j][0] == "jet"]
+            if js:
+                j = rng.choice(js)
+                mode = rng.below(3)
+                if mode == 0 and jets_by_arrow:
+                    same = jets_by_arrow.get(dnodes[j][1], [])
+                    if same:
+                        emit("jet-code", dnodes[:j] + [("jet", rng.choice(same))] + dnodes[j + 1:])
+                elif mode == 1:
+                    emit("jet-code", dnodes[:j] + [("jet", rng.below(len(jt.codes)))] + dnodes[j + 1:])
+                else:
+                    # an unassigned code point: extend a proper prefix of a code by the bit that leaves the tree
+                    code = list(jt.codes[dnodes[j][1]])
+                    cand = []
+                    for ln in range(len(code)):
+                        alt = tuple(code[:ln] + [1 - code[ln]])
+                        if alt not in jt.prefixes and alt not in jt.by_code:
+                            cand.append(alt)
+                    if cand:
+                        alt = rng.choice(cand)
+                        bits = kc.enc_nat(n)
+                        for x, dd in enumerate(dnodes):
+                            bits += ([1, 1] + list(alt)) if x == j else kc.enc_dnode(x, dd, jt)
+                        out.append(("jet-code", kc.pack(bits), wbytes))
+        elif k == 11:
+            ws = [j for j in range(n) if dnodes[j][0] == "word"]
+            if ws:
+                j = rng.choice(ws)
+                m = dnodes[j][1]
+                mode = rng.below(3)
+                if mode == 0:
+                    depth = rng.choice([32, 33, 34, 64])
+                    bits = kc.enc_nat(n)
+                    for x, dd in enumerate(dnodes):
+                        bits += ([1, 0] + kc.enc_nat(depth)) if x == j else kc.enc_dnode(x, dd, jt)
+                    out.append(("word-size", kc.pack(bits), wbytes))
+                else:
+                    m2 = max(0, m + (1 if mode == 1 else -1))
+                    emit("word-size", dnodes[:j] + [("word", m2, tuple(rng.bits(2 ** m2)))] + dnodes[j + 1:])
+        elif k == 12 and n >= 3:
+            j = rng.below(n - 1)
+            a, b = dnodes[j], dnodes[j + 1]
+            if j not in _dn_children(b):
+                def fix(c):
+                    return j + 1 if c == j else (j if c == j + 1 else c)
+                q = [_dn_map(x, fix) for x in dnodes[:j] + [b, a] + dnodes[j + 2:]]
+                emit("swap-independent", q)
+        elif k == 13:
+            # prefer a node that is referenced at least twice, so that the original and the copy both stay reachable
+            refs = {}
+            for x in dnodes:
+                for c in _dn_children(x):
+                    refs[c] = refs.get(c, 0) + 1
+            multi = [j for j, v in refs.items() if v >= 2]
+            if multi and rng.below(4) != 0:
+                i = rng.choice(multi)
+                d = dnodes[i]
+            q = dnodes[:i + 1] + [d] + [_dn_map(x, lambda c: c + 1 if c > i else c) for x in dnodes[i + 1:]]
+            users = [u for u in range(i + 2, len(q)) if i in _dn_children(q[u])]
+            if users:
+                u = rng.choice(users)
+                done = [False]
+
+                def once(c):
+                    if c == i and not done[0]:
+                        done[0] = True
+                        return i + 1
+                    return c
+                q[u] = _dn_map(q[u], once)
+                emit("duplicate-node", q, recanon=True)
+        elif k == 14:
+            bits = kc.enc_prog(dnodes, jt)
+            pad = (-len(bits)) % 8
+            if pad and rng.below(2):
+                tail = [0] * pad
+                tail[rng.below(pad)] = 1
+                out.append(("padding-bits", kc.pack(bits + tail), wbytes))
+            else:
+                out.append(("padding-bits", kc.pack(bits) + [0], wbytes))
+        elif k == 15:
+            w = list(wbytes)
+            mode = rng.below(3)
+            if mode == 0 and w:
+                out.append(("witness-stream", kc.pack(kc.enc_prog(dnodes, jt)), w[:-1]))
+            elif mode == 1:
+                out.append(("witness-stream", kc.pack(kc.enc_prog(dnodes, jt)), w + [0]))
+            elif w:
+                w[-1] |= 1
+                out.append(("witness-stream", kc.pack(kc.enc_prog(dnodes, jt)), w))
+        elif k == 16 and n >= 2:
+            j = rng.range(1, n - 1)
+            bits = kc.enc_nat(n)
+            for x, dd in enumerate(dnodes[:j]):
+                bits += kc.enc_dnode(x, dd, jt)
+            out.append(("truncate-at-node", kc.pack(bits), wbytes))
+    return out
+
+
+# ------------------------------------------------------------------ evaluation of the Coq reference, robust against
+# a single oversized case (a batch that fails or times out is re-run case by case with a short timeout)
+def ref_eval(imports, exprs, workdir, tag, batch=16, timeout=240, single_timeout=90, budget_s=None):
+    """Evaluate the expressions in Coq.  With budget_s the list is processed in slices of 16 batches (one per core) and
+    no new slice is started once the budget is used up: the remaining results are None (the caller counts them as not
+    evaluated), so the wall time stays bounded on a loaded machine.  Returns (values, number of batches retried)."""
+    if budget_s is not None:
+        import time
+        t0 = time.time()
+        vals = []
+        retried = 0
+        step = batch * vplib.NCPU
+        pos = 0
+        while pos < len(exprs):
+            if pos > 0 and time.time() - t0 > budget_s:
+                break
+            v, r = ref_eval(imports, exprs[pos:pos + step], workdir, "%s_s%d" % (tag, pos // step), batch=batch, timeout=timeout,
+                            single_timeout=single_timeout)
+            vals += v
+            retried += r
+            pos += step
+        return vals + [None] * (len(exprs) - len(vals)), retried
+    import resource
+    soft, hard = resource.getrlimit(resource.RLIMIT_AS)
+    lim = 8 * 1024 ** 3
+    try:
+        resource.setrlimit(resource.RLIMIT_AS, (lim if hard == resource.RLIM_INFINITY else min(lim, hard), hard))
+    except (ValueError, OSError):
+        pass
+    try:
+        vals, logs = vplib.coq_eval(imports, exprs, workdir=workdir, tag=tag, batch=batch, timeout=timeout)
+        bad = [k for k, l in enumerate(logs) if l]
+        for k in bad:
+            if "Error" in logs[k] and "timeout after" not in logs[k] and "memory" not in logs[k].lower() and "Stack overflow" not in logs[k]:
+                # a genuine Coq error (the model does not compile / an expression is ill-formed): infrastructure problem
+                raise vplib.Infra("evaluation of the Coq reference failed:\n" + logs[k][-3000:])
+            idx = list(range(k * batch, min(len(exprs), (k + 1) * batch)))
+            v2, _l2 = vplib.coq_eval(imports, [exprs[i] for i in idx], workdir=workdir, tag=tag + "_retry%d" % k, batch=1,
+                                     timeout=single_timeout)
+            for i, v in zip(idx, v2):
+                vals[i] = v
+        return vals, len(bad)
+    finally:
+        try:
+            resource.setrlimit(resource.RLIMIT_AS, (soft, hard))
+        except (ValueError, OSError):
+            pass
+
+
+# ------------------------------------------------------------------ C06: the Coq semantics as third party
+SEM_IMPORTS = ["Lib.Outcome", "Ty.Ty", "Core.Prog", "Core.Term", "Core.Run", "Cdiff.EvalRef"]
+_spec = {}
+
+
+def specified_core_jets(binary, workdir):
+    """Elements jets that are namesakes (same name, same types) of the Core jets specified in coq/Jets/JetSpec.v:
+    returns (jet list for the generators [('e', name, src, tgt)], {name: Core index}, notes)"""
+    if binary in _spec:
+        return _spec[binary]
+    vals, logs = vplib.coq_eval(["Core.Run"], ["List.concat (map (fun l => N.of_nat (List.length l) :: l) run_jet_names)"],
+                                workdir=workdir, tag="c06jetnames")
+    if vals[0] is None:
+        raise vplib.Infra("cannot evaluate Core.Run.run_jet_names:\n" + logs[0][-2000:])
+    flat = vals[0]
+    spec = {}
+    pos = 0
+    while pos < len(flat):
+        ln = flat[pos]
+        ent = flat[pos + 1:pos + 1 + ln]
+        spec[ent[0]] = bytes(ent[1:]).decode()
+        pos += 1 + ln
+    core = pg.jet_list(binary, "c", workdir)
+    core_by_name = {j[1]: j for j in core}
+    bad = [(i, nm) for i, nm in spec.items() if i >= len(core) or core[i][1] != nm]
+    ids = {}
+    out = []
+    for j in all_jets(binary, workdir):
+        c = core_by_name.get(j[1])
+        if c is not None and spec.get(c[0]) == j[1] and c[2] == j[2] and c[3] == j[3]:
+            ids[j[1]] = c[0]
+            if pg.width(j[2]) <= 600 and pg.width(j[3]) <= 600:
+                out.append(("e", j[1], j[2], j[3]))
+    _spec[binary] = (out, ids, {"specified_in_coq": len(spec), "elements_namesakes_usable": len(ids), "id_name_mismatch": bad})
+    return _spec[binary]
+
+
+def parse_info(nums):
+    """harness `c06 info` -> (arrows, {index: cmr bytes}) | None"""
+    if not isinstance(nums, list) or not nums or nums[0] != 0:
+        return None
+    arrows = []
+    cmrs = {}
+    pos = 1
+    while pos < len(nums):
+        if nums[pos] == 5:
+            arrows.append(None)
+            pos += 1
+        elif nums[pos] == 4:
+            a, pos = pg.ty_from_nums(nums, pos + 1)
+            b, pos = pg.ty_from_nums(nums, pos)
+            arrows.append((a, b))
+        elif nums[pos] == 8:
+            cmrs[nums[pos + 1]] = nums[pos + 2:pos + 34]
+            pos += 34
+        else:
+            return None
+    return arrows, cmrs
+
+
+_tyc = {}
+
+
+def ty_coq_cached(t):
+    k = id(t)
+    e = _tyc.get(k)
+    if e is None or e[0] is not t:
+        e = (t, pg.ty_coq(t))
+        _tyc[k] = e
+    return e[1]
+
+
+def sem_expr(prog, arrows, cmrs, core_ids):
+    """Gallina call of Cdiff.EvalRef.run_sem on a PDL program with Elements namesakes of specified Core jets"""
+    ents = []
+    for n, a in zip(prog, arrows):
+        if n[0] == "jet":
+            nc = "(NJet 0 %d)" % core_ids[n[2]]
+        elif n[0] == "disc":
+            nc = "(NDisconnect %d%%nat %s)" % (n[1], "None" if n[2] is None else "(Some %d%%nat)" % n[2])
+        else:
+            nc = pg.node_coq(n)
+        ents.append("(%s, %s)" % (nc, "None" if a is None else "(Some (%s, %s))" % (ty_coq_cached(a[0]), ty_coq_cached(a[1]))))
+    cm = "[" + "; ".join("(%d%%nat, %s)" % (i, vplib.coq_list(c)) for i, c in sorted(cmrs.items())) + "]"
+    return "run_sem [%s] %s" % ("; ".join(ents), cm)
+
+
+def _bits_of_int(x, w):
+    return [(x >> i) & 1 for i in range(w - 1, -1, -1)]
+
+
+def disc_templates(rng, count):
+    """programs 1 -> 1 around a disconnect node  disconnect (l : 2^256 * 1 -> B * C) (r : C -> D)  with C and D of DIFFERENT
+    bit widths, whose result B * D is compared bit for bit with the expected constant (eq_N + verify; half of the
+    cases with a wrong expectation: jet failure).  Returns [(pdl node table, expected kind 0 | 2, description)]"""
+    out = []
+    shapes = [  # (log2 width of B, kind of r) ; B * D must be a word type for the eq jets: widths equal
+        (3, "c1_d8"), (4, "c1_d16"), (5, "c1_d32"), (3, "c16_d8"), (4, "c32_d16"), (5, "c64_d32"), (3, "c8_d8")]
+    for k in range(count):
+        lb, shape = shapes[k % len(shapes)]
+        wb = 2 ** lb
+        bval = rng.below(2 ** wb)
+        nodes = []
+
+        def add(n):
+            nodes.append(n)
+            return len(nodes) - 1
+        # l = pair (comp unit WORD_B) (comp unit WORD_C | unit)
+        u = add(("unit",))
+        kb = add(("word", lb, _bits_of_int(bval, wb)))
+        lb_ = add(("comp", u, kb))
+        if shape.startswith("c1_"):
+            lc = add(("unit",))
+            # r : 1 -> 2^wb : a constant
+            dval = rng.below(2 ** wb)
+            r = add(("word", lb, _bits_of_int(dval, wb)))
+        else:
+            wc = int(shape[1:shape.index("_")])
+            lc_log = wc.bit_length() - 1
+            cval = rng.below(2 ** wc)
+            u2 = add(("unit",))
+            kc_ = add(("word", lc_log, _bits_of_int(cval, wc)))
+            lc = add(("comp", u2, kc_))
+            if wc == wb:
+                r = add(("iden",))
+                dval = cval
+            else:
+                # C = 2^(2 wb) -> D = 2^wb : take the high half
+                i_ = add(("iden",))
+                r = add(("take", i_))
+                dval = cval >> wb
+        l = add(("pair", lb_, lc))
+        d = add(("disc", l, r))
+        good = rng.below(2) == 0
+        exp = (bval << wb) | dval
+        if not good:
+            exp ^= 1 << rng.below(2 * wb)
+        ke = add(("word", lb + 1, _bits_of_int(exp, 2 * wb)))
+        pr = add(("pair", d, ke))
+        eq = add(("jet", "e", "eq_%d" % (2 * wb)))
+        c1 = add(("comp", pr, eq))
+        vf = add(("jet", "e", "verify"))
+        add(("comp", c1, vf))
+        out.append((nodes, 0 if good else 2, "disc:%s:%s" % (shape, "ok" if good else "mismatch")))
     return out
